@@ -177,6 +177,23 @@ def mesh_request(c):
         " ".join(map(str, bi)), fbs(c["w"]), fbs(c["fr"]), len(kept), fbs(kept))
 
 
+def proj_request(classical, pretend, cut, w, fr, e2, bi, temps):
+    """e2 = |eigvecs[:, :, bi]|^2 of shape (nq, nr, ns)"""
+    nq, nb = np.asarray(fr).shape
+    nr, ns = e2.shape[1], e2.shape[2]
+    bil = list(range(nb)) if bi is None else list(np.hstack(bi).astype(int))
+    hascut = cut is not None
+    return "proj %d %d %d %s %d %d %d %d %s %s %s %s %d %s" % (
+        int(classical), int(pretend), int(hascut), fb(cut if hascut else 0.0), nq, nr, nb, ns, " ".join(map(str, bil)),
+        fbs(w), fbs(fr), fbs(e2), len(temps), fbs(temps))
+
+
+def rand_unitary(rng, n):
+    a = np.array([[complex(rng.gauss(0, 1), rng.gauss(0, 1)) for _ in range(n)] for _ in range(n)])
+    qm, _ = np.linalg.qr(a)
+    return qm
+
+
 class FormTracker:
     """The Python S / C_V formulas and the zero-point sum each exist in a pinned and a repaired form
     (proved equal over the reals where both are defined).  The implementation must agree with ONE of
@@ -258,7 +275,7 @@ def main(run):
     run.count("oracle-units", section="oracle")
 
     # ---------------------------------------------------------------- per-mode grid
-    nmode = 900 if thorough else 260
+    nmode = 4000 if thorough else 260
     xs = [10 ** rng.uniform(-12, 6) for _ in range(nmode)]
     xs += [1e-12, 1e6, 1.0, 700.0, 709.0, 709.7, 709.9, 710.4, 711.0, 745.0, 746.0, 800.0, 1420.9, 1421.1, 1500.0, 1e4]
     mode_cases = []
@@ -276,19 +293,30 @@ def main(run):
         run.count("classical" if cl else "quantum")
 
     # ---------------------------------------------------------------- synthetic meshes
-    nmesh = 300 if thorough else 80
+    nmesh = 1000 if thorough else 80
     mesh_cases = []
     for _ in range(nmesh):
         c = gen_mesh_case(rng, thorough)
         mesh_cases.append(c)
         lines.append(mesh_request(c))
         meta.append(("mesh", c))
+    # q-point counts around typical block sizes, non-uniform integer weights (dense symmetry-reduced meshes): blocking / boundary bugs
+    for nq_big in [1, 2, 255, 256, 257, 511, 513, 1000, rng.randint(300, 600), rng.randint(300, 600)] + ([2047, 2049, 4097] if thorough else []):
+        nb_ = rng.choice([1, 2, 3])
+        frb = np.array([[rng.uniform(0.3, 20.0) * (-1 if rng.random() < 0.03 else 1) for _ in range(nb_)] for _ in range(nq_big)])
+        cb = dict(nq=nq_big, nb=nb_, fr=frb, w=[rng.randint(1, 48) for _ in range(nq_big)], cut=rng.choice([None, 0.5]), pretend=False,
+                  classical=rng.random() < 0.2, bi=None, temps=[0.0, rng.uniform(20, 200), rng.uniform(300, 1500)], style="many-qpoints")
+        mesh_cases.append(cb)
+        lines.append(mesh_request(cb))
+        meta.append(("mesh", cb))
+        run.count("nq=%d" % nq_big if nq_big in (1, 2, 255, 256, 257, 511, 513, 1000, 2047, 2049, 4097) else "nq in 300..600")
+
     # the generated loop nest of phpy_get_thermal_properties vs the compiled kernel itself (eV units, no Python layer)
     import phonopy._phonopy as phonoc
 
     for c in mesh_cases:
         kept = np.array([t for t in c["temps"] if not (t < 0)], dtype="double")
-        if c["nq"] * c["nb"] * len(kept) > 400 or sum(1 for m_ in meta if m_[0] == "cloop") >= (120 if thorough else 40):
+        if c["nq"] * c["nb"] * len(kept) > 400 or sum(1 for m_ in meta if m_[0] == "cloop") >= (300 if thorough else 40):
             continue
         fe = np.array((np.abs(c["fr"]) if c["pretend"] else c["fr"]) * units.THzToEv, dtype="double", order="C")
         cut = 0.0 if (c["cut"] is None or c["cut"] < 0) else c["cut"] * units.THzToEv
@@ -304,14 +332,81 @@ def main(run):
     lines.append(mesh_request(c))
     meta.append(("mesh", c))
 
+    # ---------------------------------------------------------------- projection on synthetic eigenvectors, all option combinations
+    from phonopy.phonon.thermal_properties import ThermalProperties as _TP
+
+    nproj = 150 if thorough else 12
+    for _ in range(nproj):
+        nq, nb = rng.randint(1, 3), rng.choice([3, 6])
+        fr = np.array([[rng.uniform(0.2, 20.0) * (-1 if rng.random() < 0.15 else 1) for _ in range(nb)] for _ in range(nq)])
+        ev = np.array([rand_unitary(rng, nb) for _ in range(nq)])
+        w = [rng.randint(1, 5) for _ in range(nq)]
+        cut = rng.choice([None, None, 0.0, rng.uniform(0.3, 5.0)])
+        pretend, cl = rng.random() < 0.4, rng.random() < 0.25
+        bsel = rng.choice(["none", "none", "subset", "permutation"])
+        bi = None if bsel == "none" else [sorted(rng.sample(range(nb), rng.randint(1, nb - 1)))] if bsel == "subset" else [rng.sample(range(nb), nb)]
+        temps = [0.0, 10 ** rng.uniform(-2, 0), rng.uniform(5, 900), 10 ** rng.uniform(3.5, 5)]
+        pinfo = dict(kind="synthetic-projection", nq=nq, nb=nb, weights=w, cutoff=cut, pretend_real=pretend, classical=cl, band_indices=bi,
+                     frequencies_THz=fr.tolist(), temperatures=temps)
+        run.case(("proj", fr.tobytes(), ev.tobytes(), tuple(w), cut, pretend, cl, repr(bi)), nontrivial=True)
+        run.count("projection band_indices=" + bsel)
+        site_kf = "ThermalProperties(is_projection=True, band_indices=...)"
+        try:
+            with warnings.catch_warnings():
+                warnings.simplefilter("ignore")
+                with np.errstate(all="ignore"):
+                    tp = _TP(FakeMesh(fr, w, ev), cutoff_frequency=cut, pretend_real=pretend, band_indices=bi, is_projection=True, classical=cl)
+                    tp.temperatures = temps
+                    tp.run()
+        except ValueError as e:
+            if bi is None:
+                raise
+            run.violation(site_kf, "projection-band-indices", "is_projection with band_indices raises %s: %s" % (type(e).__name__, e), pinfo)
+            continue
+        ptp = tp._projected_thermal_properties
+        tt, tF, tS, tC = tp.thermal_properties
+        bad = False
+        for nm, comp, ref, fl in (("free energy", ptp[1], tF, conv * 0.1), ("entropy", ptp[2], tS, kB * conv * 1000 * nb), ("heat capacity", ptp[3], tC, kB * conv * 1000 * nb)):
+            ssum = np.asarray(comp).sum(axis=1)
+            okm = np.isfinite(ssum) & np.isfinite(ref)
+            if np.any(np.abs(ssum[okm] - np.asarray(ref)[okm]) > 1e-9 * np.maximum(np.abs(np.asarray(ref)[okm]), fl)):
+                bad = True
+                run.violation(site_kf if bi is not None else "ThermalProperties.run (is_projection)", "projection-band-indices" if bi is not None else "projection-sum",
+                              "projected %s components do not add up to the total (unitary eigenvectors)" % nm, pinfo)
+                break
+        run.count("oracle-projection-sum", section="oracle")
+        if bad:
+            continue
+        bil = list(range(nb)) if bi is None else list(np.hstack(bi).astype(int))
+        e2 = np.abs(ev[:, :, bil]) ** 2
+        lines.append(proj_request(cl, pretend, cut, w, fr, e2, bi, temps))
+        meta.append(("proj", (ptp, pinfo)))
+
     # ---------------------------------------------------------------- temperatures setter
     tl = [rng.uniform(-5, 5) for _ in range(8)] + [0.0, -0.0]
     lines.append("keeptemps %d %s" % (len(tl), fbs(tl)))
     meta.append(("keeptemps", tl))
 
+    # ---------------------------------------------------------------- temperature grid (set_temperature_range / run keywords)
+    ngrid = 300 if thorough else 20
+    grid_cases = [(None, None, None), (0, 1000, 10), (0.0, 100.0, 0.1), (5, 5, 1), (10, 0, 2), (-5, 20, 5), (0, 1, 0.3), (1.5, 9.0, -1), (0, 10, 0)]
+    for _ in range(ngrid):
+        r = rng.random()
+        tmin = None if r < 0.15 else rng.choice([0, 0.0, rng.uniform(-20, 300), float(rng.randint(0, 50))])
+        tmax = None if rng.random() < 0.15 else rng.choice([rng.uniform(-10, 1500), float(rng.randint(1, 200) * 10), 1000])
+        tstep = None if rng.random() < 0.15 else rng.choice([10, 1, 0.1, 0.3, 2.5, rng.uniform(0.05, 40), -rng.uniform(0, 5), 0, 1 / 3, 7])
+        if tmin is not None and tmax is not None and tstep and tstep > 0 and (tmax - (tmin or 0)) / tstep > 20000:
+            tstep = 10
+        grid_cases.append((tmin, tmax, tstep))
+    for g in grid_cases:
+        lines.append("temprange %d %s %d %s %d %s" % (int(g[0] is not None), fb(g[0] or 0.0), int(g[1] is not None), fb(g[1] or 0.0), int(g[2] is not None), fb(g[2] or 0.0)))
+        meta.append(("temprange", g))
+        run.case(("temprange",) + tuple(g), nontrivial=True)
+        run.count("temperature-grid")
+
     # ---------------------------------------------------------------- real crystals through the API
     api_cases = []
-    napi = 10 if thorough else 3
+    napi = 30 if thorough else 3
     for _ in range(napi):
         name = rng.choice(["nacl_prim", "cscl", "zincblende_prim", "bcc", "hcp"])
         cell, cen = gen.make_cell(name)
@@ -325,23 +420,30 @@ def main(run):
         if not proj and rng.random() < 0.4:
             kw["band_indices"] = [sorted(rng.sample(range(nb), rng.randint(1, nb)))]
         temps = [0.0, 0.2, 5.0, 77.0, 300.0, 2000.0]
+        grid = None
+        if rng.random() < 0.5:
+            grid = (rng.choice([0, 0.0, 50]), rng.choice([300, 450.0, 1000]), rng.choice([50, 75.0, 100]))
         with warnings.catch_warnings():
             warnings.simplefilter("ignore")
             with np.errstate(all="ignore"):
-                ph.run_thermal_properties(temperatures=temps, is_projection=proj, **kw)
+                if grid is None:
+                    ph.run_thermal_properties(temperatures=temps, is_projection=proj, **kw)
+                else:
+                    ph.run_thermal_properties(t_min=grid[0], t_max=grid[1], t_step=grid[2], is_projection=proj, **kw)
         d = ph.get_thermal_properties_dict()
         tpo = ph.thermal_properties
+        if grid is not None:
+            temps = [float(t) for t in tpo.temperatures]
+            lines.append("temprange 1 %s 1 %s 1 %s" % (fb(grid[0]), fb(grid[1]), fb(grid[2])))
+            meta.append(("temprange-api", (grid, temps)))
+            run.count("api temperature grid")
         c = dict(nq=len(ph.mesh.weights), nb=nb, fr=np.array(ph.mesh.frequencies), w=list(map(int, ph.mesh.weights)), cut=kw["cutoff_frequency"],
                  pretend=kw["pretend_real"], classical=kw["classical"], bi=kw.get("band_indices"), temps=temps, style="api:" + name)
         lines.append(mesh_request(c))
         meta.append(("api", (c, d, tpo.zero_point_energy, dict(cell=name, mesh=msh, proj=proj, kw={k: (v if not isinstance(v, list) else v) for k, v in kw.items()}))))
         if proj:
             e2 = np.abs(ph.mesh.eigenvectors) ** 2
-            hascut = kw["cutoff_frequency"] is not None
-            fr_used = np.abs(ph.mesh.frequencies) if kw["pretend_real"] else ph.mesh.frequencies
-            lines.append("proj %d %d %s %d %d %s %s %s %d %s" % (
-                int(kw["classical"]), int(hascut), fb(kw["cutoff_frequency"] if hascut else 0.0), c["nq"], nb, fbs(c["w"]), fbs(fr_used), fbs(e2),
-                len(temps), fbs(temps)))
+            lines.append(proj_request(kw["classical"], kw["pretend_real"], kw["cutoff_frequency"], c["w"], ph.mesh.frequencies, e2, None, temps))
             meta.append(("proj", (tpo._projected_thermal_properties, dict(cell=name, mesh=msh, kw=kw, totals={k_: np.array(v_) for k_, v_ in d.items()}))))
         api_cases.append(c)
         run.case(("api", name, msh, proj, repr(kw)), nontrivial=True)
@@ -362,7 +464,7 @@ def main(run):
         if line == "bad-op":
             run.broke("correspondence", "model rejected a well-formed request (%s)" % kind, str(info)[:300])
             continue
-        vals = [bf(t) for t in line.split()]
+        vals = [bf(t) for t in line.split() if t != "n"]
         if kind == "consts":
             names = ["KB(c/phonopy.c)", "Kb", "THzToEv", "EvTokJmol", "EVAngstromToGPa", "kb_J", "EV", "Avogadro", "PlanckConstant"]
             refs = [kb_c, units.Kb, units.THzToEv, units.EvTokJmol, units.EVAngstromToGPa, units.kb_J, units.EV, units.Avogadro, units.PlanckConstant]
@@ -419,6 +521,43 @@ def main(run):
                         run.broke("correspondence", "compiled loop nest vs generated Lean loop, %s at T=%r: kernel %r, model %r" % (nm, t, props[i, cidx], model[i, cidx]),
                                   dict(style=c["style"], nq=c["nq"], nb=c["nb"], cutoff_eV=cut, classical=c["classical"], weights=c["w"], frequencies_eV=fe.tolist(), temperatures=kept.tolist()))
             run.count("generated-loop", section="correspondence")
+            continue
+        if kind == "temprange-api":
+            grid, g1 = info
+            ncmp += 1
+            if [fb(t) for t in g1] != [fb(t) for t in vals]:
+                run.broke("correspondence", "Phonopy.run_thermal_properties(t_min=%r, t_max=%r, t_step=%r): temperatures %r, model %r" % (grid + (g1, vals)))
+            continue
+        if kind == "temprange":
+            from phonopy.phonon.thermal_properties import ThermalProperties
+
+            tmin, tmax, tstep = info
+            tp1 = ThermalProperties(FakeMesh([[1.0]], [1]))
+            tp1.set_temperature_range(t_min=tmin, t_max=tmax, t_step=tstep)
+            g1 = list(tp1.temperatures)
+            ncmp += 1
+            mg = vals_grid = [bf(t) for t in line.split()[1:]]
+            if [fb(t) for t in g1] != [fb(t) for t in mg]:
+                run.broke("correspondence", "set_temperature_range(t_min=%r, t_max=%r, t_step=%r): implementation %d values %r…%r, model %d values %r…%r" % (
+                    tmin, tmax, tstep, len(g1), g1[:2], g1[-2:], len(mg), mg[:2], mg[-2:]), dict(t_min=tmin, t_max=tmax, t_step=tstep))
+            # deprecated keywords of run() take the same path
+            tp2 = ThermalProperties(FakeMesh([[1.0]], [1]))
+            tp2.temperatures = [1.0]
+            with warnings.catch_warnings():
+                warnings.simplefilter("ignore")
+                with np.errstate(all="ignore"):
+                    if tmin is not None or tmax is not None or tstep is not None:
+                        tp2.run(t_step=tstep, t_max=tmax, t_min=tmin)
+                        if [fb(t) for t in tp2.temperatures] != [fb(t) for t in g1]:
+                            run.violation("ThermalProperties.run(t_step, t_max, t_min)", "grid-differs", "run keywords give a different grid than set_temperature_range", dict(t_min=tmin, t_max=tmax, t_step=tstep))
+            # oracle: documented meaning — starts at max(t_min, 0), constant positive step, last point within half a step of t_max, never beyond t_max + step/2
+            lo = 10 if tmin is None else max(tmin, 0)
+            hi = 1000 if tmax is None else max(tmax, lo)
+            st = 10 if (tstep is None or not tstep > 0) else tstep
+            if len(g1) == 0 or abs(g1[0] - lo) > 0 or abs(g1[-1] - hi) > st / 2 * (1 + 1e-9) + 1e-9 * max(1.0, abs(hi)) or any(abs((b - a) - st) > 1e-9 * max(1.0, abs(hi)) for a, b in zip(g1, g1[1:])):
+                run.violation("ThermalProperties.set_temperature_range", "grid-meaning", "grid %r…%r (%d points) for t_min=%r t_max=%r t_step=%r" % (g1[:2], g1[-2:], len(g1), tmin, tmax, tstep),
+                              dict(t_min=tmin, t_max=tmax, t_step=tstep))
+            run.count("temperature-grid", section="correspondence")
             continue
         if kind == "keeptemps":
             from phonopy.phonon.thermal_properties import ThermalProperties
@@ -585,7 +724,8 @@ def main(run):
                 if not vals_ok:
                     continue
                 if not same(fC[i], fP[i], scF(t), exT(t)):
-                    below = bool(np.any((fe_ev > 0) & (fe_ev <= cut_ev)))
+                    zdiff = float(np.sum(np.array(c["w"])[:, None] * np.where((fe_ev > 0) & (fe_ev <= cut_ev), fe_ev, 0.0)) / 2 / wsum * conv)
+                    below = bool(np.any((fe_ev > 0) & (fe_ev <= cut_ev))) and (c["classical"] or same(float(fC[i] - fP[i]), zdiff, scF(t), exT(t)))
                     run.violation("ThermalProperties.run(lang='C')", "zpe-below-cutoff" if below else "c-ne-py",
                                   "T=%r: free energy C %r, Py %r (modes in (0, cutoff]: %s)" % (t, fC[i], fP[i], below), dict(T=t, **info_s))
                 if not same(sC[i], sP[i], floorS, exT(t)) or not same(cvC[i], cvP[i], floorS, exT(t)):
@@ -608,7 +748,7 @@ def main(run):
     run.cov["correspondence"]["compared"] = ncmp
 
     # ---------------------------------------------------------------- finite-difference identities on the implementation
-    nfd = 120 if thorough else 30
+    nfd = 400 if thorough else 30
     for _ in range(nfd):
         nq, nb = rng.randint(1, 4), rng.randint(1, 6)
         fr = np.array([[rng.uniform(0.3, 20.0) for _ in range(nb)] for _ in range(nq)])
